@@ -195,7 +195,7 @@ struct LtblC : Cont {
     const char *kind() { return "qlisttbl"; }
     bool create(bool ts) { t = qlisttbl(options | (ts ? QLISTTBL_THREADSAFE : 0)); return t != nullptr; }
     void *mutex() { return t ? t->qmutex : nullptr; }
-    std::vector<const char *> ops() { return {"put", "putstr", "putstrf", "putint", "remove", "walk+removeobj", "sort", "clear", "load", "get", "getstr", "getint", "getmulti", "getnext-walk", "size", "debug", "lock+unlock", "save", "put(NULL)", "get(NULL)"}; }
+    std::vector<const char *> ops() { return {"put", "putstr", "putstrf", "putint", "remove", "walk+removeobj", "sort", "clear", "load", "get", "getstr", "getint", "getmulti", "getnext-walk", "size", "debug", "lock+unlock", "save", "put(NULL)", "get(NULL)", "removeobj(stale handle, empty table)", "removeobj(NULL)"}; }
     int nmutators() { return 9; }
     Res run(int op, const Args &a) {
         Res r; const char *k = a.key.c_str();
@@ -220,7 +220,11 @@ struct LtblC : Cont {
             case 16: qlisttbl_lock(t); qlisttbl_unlock(t); break;
             case 17: { std::string p = g_tmpdir + "/save.txt"; r.failed = !qlisttbl_save(t, p.c_str(), '=', true); break; }
             case 18: r.failed = !qlisttbl_put(t, nullptr, a.val.data(), a.val.size()); break;
-            default: r.failed = qlisttbl_get(t, nullptr, nullptr, a.newmem) == nullptr;
+            case 19: r.failed = qlisttbl_get(t, nullptr, nullptr, a.newmem) == nullptr; break;
+            case 20: { // a handle whose entry is gone (prev == next == NULL) is only harmless on an empty table: "can't verify object"
+                       if (qlisttbl_size(t) != 0) qlisttbl_clear(t);
+                       qlisttbl_obj_t o; memset(&o, 0, sizeof o); r.failed = !qlisttbl_removeobj(t, &o); break; }
+            default: r.failed = !qlisttbl_removeobj(t, nullptr);
         }
         return r;
     }
@@ -405,7 +409,7 @@ struct Trial {
         if (!ct->create(ts)) { delete ct; c.fail(ATOM, "fault:ctor-null", "constructor returned NULL without an injected failure"); throw CaseStop{"constructor failed"}; }
         for (auto &st : prefix) {
             ct->run(st.op, st.a);
-            if (m14 && ct->mutex() && g_depth[ct->mutex()] != 0) { std::string on = ct->ops()[(size_t)st.op]; std::string kn = ct->kind(); long dep = g_depth[ct->mutex()]; g_depth[ct->mutex()] = 0; c.fail(LOCK, ("fault:lock-depth:" + kn + ":" + on).c_str(), "%s.%s (idx=%ld, key=%s) while building the state returned with the lock at depth %ld", kn.c_str(), on.c_str(), st.a.idx, st.a.key.c_str(), dep); }
+            if (m14 && ct->mutex() && g_depth[ct->mutex()] != 0) { std::string on = ct->ops()[(size_t)st.op]; for (auto &ch : on) if (ch == ' ' || ch == ',') ch = '_'; std::string kn = ct->kind(); long dep = g_depth[ct->mutex()]; g_depth[ct->mutex()] = 0; c.fail(LOCK, ("fault:lock-depth:" + kn + ":" + on).c_str(), "%s.%s (idx=%ld, key=%s) while building the state returned with the lock at depth %ld", kn.c_str(), on.c_str(), st.a.idx, st.a.key.c_str(), dep); }
         }
         return ct;
     }
@@ -432,7 +436,10 @@ void run_case(Src &s, Ctx &c) {
     bool ts = m14 ? true : s.chance(1, 4);
     Src cfg = s;                                    // container configuration is re-decoded identically for every rebuild
     { Cont *tmp = make(kind, s); delete tmp; }      // consume the configuration choices
-    Cont *probe_ct = make(kind, cfg); std::vector<const char *> opn = probe_ct->ops(); int nmut = probe_ct->nmutators(); std::string kname = probe_ct->kind(); delete probe_ct;
+    Cont *probe_ct = make(kind, cfg); std::vector<const char *> opn_raw = probe_ct->ops();
+    // operation names double as signature parts: no blanks
+    static std::vector<std::string> opn_store; opn_store.clear(); for (auto n : opn_raw) { std::string x = n; for (auto &ch : x) if (ch == ' ' || ch == ',') ch = '_'; opn_store.push_back(x); }
+    std::vector<const char *> opn; for (auto &x : opn_store) opn.push_back(x.c_str()); int nmut = probe_ct->nmutators(); std::string kname = probe_ct->kind(); delete probe_ct;
     // state prefix
     std::vector<Step> prefix;
     int plen = (int)s.range(0, 12);
